@@ -28,9 +28,20 @@ REQUIRED = ["roundtrips", "has_fleeting_bond", "has_placeholder", "has_none_pari
 
 def _big_ids(rng, pg):
     ids = list(pg["atoms"])
-    kind = rng.choice(["keep", "keep", "huge", "neg"])
+    kind = rng.choice(["keep", "keep", "huge", "neg", "mixed-width", "mixed-width"])
     if kind == "keep":
         return pg
+    if kind == "mixed-width":
+        # ids of very different widths side by side in one graph / one descriptor: small ones next to ids around the
+        # int32, float-mantissa (2**53), int64 and uint64 limits and far beyond (any detour through a fixed-width or
+        # floating-point container shows)
+        wide = [2**31 + 3, 2**53 + 1, 2**62 + 5, 2**63 - 1, 2**63 + 11, 2**64 - 3, 2**64 + 7, 10**30 + 1, -(2**63) - 5, -(2**53) - 1]
+        k = rng.randint(1, min(3, len(ids)))
+        tgt = [w + rng.randrange(0, 1000) * 2 for w in rng.sample(wide, k)]
+        chosen = rng.sample(ids, k)
+        if set(tgt) & set(ids):
+            return pg
+        return sem.pg_relabel(pg, dict(zip(chosen, tgt)))
     if kind == "huge":
         tgt = rng.sample(range(10**15 - 10**6, 10**15), len(ids))
     else:
